@@ -559,16 +559,36 @@ impl<'a> ProgGen<'a> {
 
     fn read_stmt(&mut self, out: &mut Vec<String>) {
         self.feat("data-read");
-        let t = if self.opts.strings && self.rng.chance(1, 4) { Ty::Str } else { self.num_tys() };
-        let v = self.var(t);
-        if self.counters_in_use.contains(&v) {
+        // one READ statement with 1..3 variables; with faults on, a DATA item may be missing or of the wrong kind
+        let n = self.rng.range(1, 3);
+        let mut vars = vec![];
+        for _ in 0..n {
+            let t = if self.opts.strings && self.rng.chance(1, 4) { Ty::Str } else { self.num_tys() };
+            let v = self.var(t);
+            if self.counters_in_use.contains(&v) || vars.contains(&v) {
+                continue;
+            }
+            let mut item = self.lit(t).trim_end_matches(['!', '#']).to_owned();
+            let mut push = true;
+            if self.opts.faults && self.rng.chance(1, 10) {
+                self.feat("read-fault");
+                match self.rng.below(3) {
+                    0 => push = false,                          // item missing: READ past DATA
+                    1 => item = "\"oops\"".to_owned(),            // a string for a numeric variable (or fine for a string)
+                    _ => item = "40000".to_owned(),             // overflows an INTEGER
+                }
+            }
+            if push {
+                self.data_items.push((t, item));
+            }
+            self.data_read += 1;
+            vars.push(v);
+        }
+        if vars.is_empty() {
             return self.print_stmt(out);
         }
-        let item = self.lit(t).trim_end_matches(['!', '#']).to_owned();
-        self.data_items.push((t, item));
-        self.data_read += 1;
-        self.emit(out, format!("READ {}", v));
-        self.emit(out, format!("PRINT {}", v));
+        self.emit(out, format!("READ {}", vars.join(", ")));
+        self.emit(out, format!("PRINT {}", vars.join("; ")));
     }
 
     fn call_stmt(&mut self, out: &mut Vec<String>) {
